@@ -2045,6 +2045,9 @@ func decodeExtendedDecapsulateEgress(data *[]byte) (SFlowExtendedDecapsulateEgre
 	rec := SFlowExtendedDecapsulateEgressRecord{}
 	var fdf SFlowFlowDataFormat
 
+	if len(*data) < 12 {
+		return rec, errors.New("extended decapsulate egress record too small")
+	}
 	*data, fdf = (*data)[4:], SFlowFlowDataFormat(binary.BigEndian.Uint32((*data)[:4]))
 	rec.EnterpriseID, rec.Format = fdf.decode()
 	*data, rec.FlowDataLength = (*data)[4:], binary.BigEndian.Uint32((*data)[:4])
